@@ -1110,6 +1110,8 @@ impl<'v, 'a, 'e: 'a> Evaluator<'v, 'a, 'e> {
 
     #[inline(always)]
     pub(crate) fn report_forward_progress(&mut self) -> crate::Result<()> {
+        #[cfg(feature = "verif_hooks")]
+        crate::verif_hooks::sched_point(crate::verif_hooks::Site::Tick);
         self.infrequent_instr_check_counter += 1;
         if self.infrequent_instr_check_counter >= INFREQUENT_INSTRUCTION_CHECK_PERIOD {
             #[cfg(rust_nightly)]
